@@ -354,6 +354,12 @@ int main (int ac,
 		EGioFile_t *out_f;
 		sprintf (out_f_name, "%s", solname);
 		out_f = EGioOpen (out_f_name, "w");
+		if (!out_f)
+		{
+			fprintf (stderr, "Could not open %s for writing the solution\n", out_f_name);
+			rval = 1;
+			goto CLEANUP;
+		}
 		switch (status)
 		{
 		case QS_LP_OPTIMAL:
@@ -382,7 +388,14 @@ CLEANUP:
 	if (basis)
 	{
 		if (writebasis)
-			rval = mpq_QSwrite_basis (p_mpq, 0, writebasis);
+		{
+			/* a status proved without the rational simplex (infeasible,
+			 * unbounded) leaves the problem without a basis to write */
+			if (p_mpq && p_mpq->basis)
+				rval = mpq_QSwrite_basis (p_mpq, 0, writebasis);
+			else
+				fprintf (stderr, "No basis available, %s not written\n", writebasis);
+		}
 	}
 	mpq_QSfree_basis (basis);
 	mpq_QSfree_prob (p_mpq);
